@@ -166,7 +166,20 @@ def r4(ctx, prog):
     hit = [q for p, q, e, pol in rl.edges_with_fact(f, other_subproc)]
     ok = bool(hit) and all(cfg.must_pass([q], cfg.exit_points(), rl.call_to("_mi_bitmap_claim")(f)) is None for q in hit)
     ctx.check(R, ok, f.where(), "a segment of another sub-process is re-marked on every path", key="C09.R4:clear_at:remark")
-    ctx.floor(R, 11)
+    # reclaim-on-free picks the segment itself (it is not handed out by the sub-process aware cursor): the un-abandon must be
+    # behind the sub-process test on every path, whatever kind of memory the segment lives in
+    f = prog.fn("_mi_segment_attempt_reclaim")
+    cfg = f.cfg
+    def same_sub(e, pol):
+        return isinstance(e, int) and rl.rel(f, e, pol, rl.is_field(f, "subproc"), rl.is_field(f, "subproc")) == "=="
+    cs = list(f.calls("_mi_arena_segment_clear_abandoned"))
+    for c in cs:
+        w = cfg.guarded(cfg.pt(c), same_sub)
+        ctx.check(R, w is None, f.where(c), "reclaim-on-free un-abandons only a segment of the caller's own sub-process (segment->subproc == heap->tld->segments.subproc on every path)",
+                  key="C09.R4:attempt:subproc", witness=w)
+    if not cs:
+        ctx.broke("C09.R4: no un-abandon in _mi_segment_attempt_reclaim")
+    ctx.floor(R, 12)
 
 
 def r5(ctx, prog):
